@@ -40,6 +40,10 @@ enum Step {
     ScanPrivate { cfg: usize, input: usize },
     /// scan on the shared scanner starting in another mode
     ScanSharedMode { input: usize, mode: usize },
+    /// `add_patterns(..).build()` (the simple builder has its own path into the cache)
+    BuildSimple { cfg: usize, input: usize },
+    /// peek on the shared scanner, advance to the first peeked match, then scan the rest
+    PeekShared { input: usize, n: usize },
 }
 
 #[derive(Clone, Debug, Serialize, Deserialize, PartialEq, Eq)]
@@ -151,13 +155,15 @@ fn gen_workload(seed: u64, idx: u64) -> Workload {
         for _ in 0..n_steps {
             let input = rng.below(inputs.len());
             let cfg = rng.below(configs.len());
-            script.push(match rng.weighted(&[35, if failing.is_empty() { 0 } else { 12 }, 20, 10, 8, 8]) {
+            script.push(match rng.weighted(&[35, if failing.is_empty() { 0 } else { 12 }, 20, 10, 8, 8, 8, 6]) {
                 0 => Step::BuildCached { cfg, input },
                 1 => Step::BuildFailing { cfg: rng.below(failing.len()) },
                 2 => Step::ScanShared { input },
                 3 => Step::PartialShared { input, k: rng.range(0, 3) },
                 4 => Step::ScanPrivate { cfg, input },
-                _ => Step::ScanSharedMode { input, mode: rng.below(configs[shared_cfg].len()) },
+                5 => Step::ScanSharedMode { input, mode: rng.below(configs[shared_cfg].len()) },
+                6 => Step::BuildSimple { cfg, input },
+                _ => Step::PeekShared { input, n: rng.range(1, 3) },
             });
         }
         threads.push(script);
@@ -183,6 +189,11 @@ fn expected(w: &Workload) -> Vec<Vec<Res>> {
                     Step::ScanShared { input } => Res::Toks(scan(&unc(&w.configs[w.shared_cfg]).unwrap(), &w.inputs[*input], 0, None)),
                     Step::PartialShared { input, k } => Res::Toks(scan(&unc(&w.configs[w.shared_cfg]).unwrap(), &w.inputs[*input], 0, Some(*k))),
                     Step::ScanSharedMode { input, mode } => Res::Toks(scan(&unc(&w.configs[w.shared_cfg]).unwrap(), &w.inputs[*input], *mode, None)),
+                    Step::BuildSimple { cfg, input } => match unc(&gen::make_simple(&w.configs[*cfg])) {
+                        Ok(sc) => Res::Toks(scan(&sc, &w.inputs[*input], 0, None)),
+                        Err(e) => Res::Err(err_kind(&e)),
+                    },
+                    Step::PeekShared { input, n } => Res::Toks(peek_then_scan(&unc(&w.configs[w.shared_cfg]).unwrap(), &w.inputs[*input], *n)),
                 })
                 .collect()
         })
@@ -206,7 +217,40 @@ fn exec_step(w: &Workload, shared: &Scanner, s: &Step) -> Res {
             Res::Toks(scan(&sc, &w.inputs[*input], 0, None))
         }
         Step::ScanSharedMode { input, mode } => Res::Toks(scan(shared, &w.inputs[*input], *mode, None)),
+        Step::BuildSimple { cfg, input } => {
+            let pats: Vec<String> = w.configs[*cfg][0].patterns.iter().map(|p| p.pattern.clone()).collect();
+            match ScannerBuilder::new().add_patterns(pats).build() {
+                Ok(sc) => Res::Toks(scan(&sc, &w.inputs[*input], 0, None)),
+                Err(e) => Res::Err(err_kind(&e)),
+            }
+        }
+        Step::PeekShared { input, n } => Res::Toks(peek_then_scan(shared, &w.inputs[*input], *n)),
     }
+}
+
+/// peek n, advance to the end of the first peeked match, then scan the rest; the peeked matches
+/// are part of the result
+fn peek_then_scan(sc: &Scanner, input: &str, n: usize) -> Vec<Tok> {
+    let mut f = sc.find_iter(input);
+    let mut out: Vec<Tok> = Vec::new();
+    let peeked = match f.peek_n(n) {
+        scnr::PeekResult::Matches(v) | scnr::PeekResult::MatchesReachedEnd(v) => v,
+        scnr::PeekResult::MatchesReachedModeSwitch((v, _)) => v,
+        scnr::PeekResult::NotFound => vec![],
+    };
+    for m in &peeked {
+        out.push((m.token_type(), m.start(), m.end()));
+    }
+    if let Some(m) = peeked.first() {
+        f.advance_to(m.end());
+    }
+    for _ in 0..input.len() + 2 {
+        match f.next() {
+            Some(m) => out.push((m.token_type(), m.start(), m.end())),
+            None => break,
+        }
+    }
+    out
 }
 
 static INTERLEAVINGS: Mutex<BTreeSet<u64>> = Mutex::new(BTreeSet::new());
@@ -242,7 +286,7 @@ fn scenario(w: Arc<Workload>, exp: Arc<Vec<Vec<Res>>>, widx: u64) {
                 order2.lock().unwrap().push((ti, si));
                 let before = scnr::verif::scanner_cache_len();
                 let r = exec_step(&w2, &shared2, s);
-                if matches!(s, Step::BuildCached { .. }) {
+                if matches!(s, Step::BuildCached { .. } | Step::BuildSimple { .. }) {
                     let after = scnr::verif::scanner_cache_len();
                     let mut hm = HITS_MISSES.lock().unwrap();
                     if after > before {
